@@ -39,6 +39,10 @@ def run(chk: Check) -> None:
     # out() of one process never changes what another (or the bundle) reports (shared with C07)
     from .c07 import io_mappings_encoded
     io_mappings_encoded(chk, 'OWN-outputs')
+    # what out() accepts for a class is what THAT class declared: exposing its outputs elsewhere copies the ports, a later change of the exposing spec does not
+    # reach back into the source spec (shared with C15)
+    from .c15 import absorbed_ports_are_copies
+    absorbed_ports_are_copies(chk, 'OWN-output-spec')
     out = prog.func('processes.Process.out')
     cfg = cfg_of(out)
     ff = chk.ctx.facts.analyse(out)
